@@ -117,9 +117,10 @@ def compatible_means_same_order(ctx, prefix):
     env = local_env(f.node)
     cls_attrs = {}
     init = ctx.index.func(f"{GD}.genome_context", "GenomeContext.__init__")
+    ienv = local_env(init.node)
     for a in body_walk(init.node):
         if isinstance(a, ast.Assign) and u(a.targets[0]).startswith("self."):
-            cls_attrs[u(a.targets[0])[5:]] = a.value
+            cls_attrs[u(a.targets[0])[5:]] = inline_locals(a.value, ienv)      # `self._included = included` with `included = [...]` a few lines above
     ordered, n = False, 0
     for c in body_walk(f.node):
         if not (isinstance(c, ast.Compare) and len(c.ops) == 1 and isinstance(c.ops[0], (ast.Eq, ast.NotEq))):
